@@ -13,6 +13,8 @@ TRANSFORMS = [
     ["transform.rotate", [-45.0, "y"]], ["transform.scale", [2.0]], ["transform.scale", [2.0, 0.5]],
     ["transform.scale", [1.0, 2.0, 3.0]], ["transform.reflect", [[1.0, 1.0, 0.0]]], ["transform.reflect", [[0.0, 1.0, -2.0]]],
     ["transform.mirror", ["xy"]], ["transform.mirror", ["zx"]], ["transform.set_pivot", [[1.0, 1.0, 0.0]]],
+    ["transform.set_pivot", [[0.5, -1.0, 2.0]]], ["transform.save_state", ["n"]], ["transform.restore_state", ["n"]],
+    ["transform.save_state", []], ["transform.restore_state", []],
 ]
 SYNC = ["move", [], {"x": 1.0, "y": 2.0, "z": 3.0}]
 MOTIONS = [
@@ -66,11 +68,11 @@ class Case:
         g = self.st.g
         name = op[0]
         if name.startswith("transform."):
-            model_step(self.model, op)
+            want_exc = model_step(self.model, op)
             exc, chunks = self.st.call(op)
             self.synced = False
-            if exc is not None:
-                P.append(("transform-op-raised", f"{op} raised {exc!r}"))
+            if (exc is None) != (want_exc is None):
+                P.append(("transform-op-outcome", f"{op}: raised {exc!r}, reference model expects {want_exc}"))
             return P
         self.calls = []
         pre_pos, pre_rel = g.position, g.distance_mode.is_relative
